@@ -73,10 +73,13 @@ def rand_atom(rng, system='en', exotic=False):
     if system == 'en':
         b = rng.choice(EN_BASES)
         if exotic and rng.random() < 0.3:
-            b = rng.choice(['Sx', 'N1', 'nP', 'ü', 'カ', 'a=b', 'a,b', 'X', 'IP-MS', "N'", 'a+b', 'x#', 'q!', '@', 'CP-THT', '%', 'a.b', '~', 'x?y', '$', 'a&b', '"q"', '^'])
+            b = rng.choice(['Sx', 'N1', 'nP', 'ü', 'カ', 'a=b', 'a,b', 'X', 'IP-MS', "N'", 'a+b', 'x#', 'q!', '@', 'CP-THT', '%', 'a.b', '~', 'x?y', '$', 'a&b', '"q"', '^',
+                            # names that Unicode normalisation (NFC / NFKC) would rewrite: half-width kana, full-width letters, a decomposed accent,
+                            # a ligature, a superscript - a name is the code points it is written with
+                            'ｶﾞ', 'ＮＰ', 'de\u0301', 'ﬁn', 'N²', '\u212b'])
         f = None if b in ps else rng.choice(EN_FEATS)
         if exotic and f is not None and rng.random() < 0.2:
-            f = rng.choice(['a=b', 'a,b', 'x1', 'カ', 'q.r', '+wh', '-wh', "a'", 'x#1', '!', 'a&b', '%', 'a:b', '@x'])
+            f = rng.choice(['a=b', 'a,b', 'x1', 'カ', 'q.r', '+wh', '-wh', "a'", 'x#1', '!', 'a&b', '%', 'a:b', '@x', 'ｶﾞ', 'de\u0301cl', 'ｘ', '²'])
         return mk_atom(b, f)
     b = rng.choice(JA_BASES)
     f = rng.choice(JA_FEATS)
@@ -202,7 +205,9 @@ def wf_py(c):
 # ---- tokens and trees ---------------------------------------------------------------------------
 WORD_POOL = ['He', 'runs', 'the', 'a', 'dog', '(', ')', '[', ']', '{', '}', '<', '>', '&', '"', "'", 'a/b', 'x<y', 'a>b', '<>', 'it\'s',
              '-LRB-', 'R&D', 'ü', '猫', 'カタカナ', 'é', 'a.b', ',', '.', ';', ':', '!', '?', '--', 'U.S.', '1,000', '50%', '=', 'x=y', '_', '*', '#1',
-             'a(b', 'b)c', '((', '))', '&amp;', '<b>', 'é', 'naïve', 'Ω', '≤', 'a|b', '|', 'a_b', 'あ', 'word']
+             'a(b', 'b)c', '((', '))', '&amp;', '<b>', 'é', 'naïve', 'Ω', '≤', 'a|b', '|', 'a_b', 'あ', 'word',
+             # words that are not in Unicode normal form (decomposed kana / accents, compatibility ideograph, Angstrom sign, half-width kana)
+             'か\u3099', 'cafe\u0301', '\ufa10', '\u212b', 'ｶﾞ', 'ｘ']
 
 
 def rand_word(rng, plain=False):
